@@ -22,4 +22,8 @@ EOF
 cd "$R"
 export GOFLAGS=-mod=mod GOPROXY=off GOSUMDB=off GOTOOLCHAIN=local GOWORK=off
 if [ $# -eq 0 ]; then set -- ./...; fi
+# the real testify is used when the module cache has it (a restored sandbox); the stand-in otherwise
+if [ -d "$(go env GOMODCACHE)/github.com/stretchr/testify@v1.10.0" ]; then
+  exec go test -vet=off -count=1 "$@"
+fi
 go test -modfile=$D/go.mod -vet=off -count=1 "$@"
